@@ -19,6 +19,7 @@ KF_KINDS = {
     "set-collision": "schema-set-wire-collision",
     "tz": "schema-timezone-pattern",
     "init-false": "schema-init-false-field",
+    "union-pack": "union-speculative-packer",
 }
 
 _modn = [0]
@@ -88,8 +89,8 @@ def json_key(k) -> str:
 
 
 class Sites:
-    def __init__(self, tbl, m, all_refs):
-        self.tbl, self.m, self.all_refs = tbl, m, all_refs
+    def __init__(self, tbl, m, all_refs, doc=None):
+        self.tbl, self.m, self.all_refs, self.doc = tbl, m, all_refs, doc
         self.out: list[tuple[tuple, str]] = []
         self._enc = {}
         clash = {}
@@ -222,6 +223,18 @@ class Sites:
             for x in t[1]:
                 if self.top_conforms(x, v):
                     self.walk(x, v, path)
+            # pack_union is speculative: an earlier member's packer that does not raise wins even
+            # if the value belongs to a later member (a serializer matter, C02/C11)
+            if self.doc is not None:
+                try:
+                    here = self.doc
+                    for pk in path:
+                        here = here[pk]
+                    own = [jround(self.enc_key(x, v)) for x in t[1] if self.top_conforms(x, v)]
+                    if own and all(o != here for o in own):
+                        self.out.append((path, "union-pack"))
+                except Exception:
+                    pass
             return
         if k == "newtype":
             return self.walk(t[1], v, path)
@@ -281,7 +294,7 @@ def explain(err, sites) -> set:
     sp = list(err.absolute_schema_path)
     kinds = set()
     for path, kind in sites:
-        if kind == "bare-name":
+        if kind in ("bare-name", "union-pack"):
             if ep[:len(path)] == path or path[:len(ep)] == ep and err.validator == "anyOf":
                 kinds.add(kind)
             continue
@@ -440,7 +453,7 @@ def run_case(ctx, tbl, root, vspecs, src, probe):
                     continue
                 ar = c[1]
                 if ar not in sites_cache:
-                    st = Sites(tbl, m, ar)
+                    st = Sites(tbl, m, ar, doc)
                     try:
                         st.walk(root, v, ())
                     except Exception as e:       # cannot attribute: leave unexplained
